@@ -42,6 +42,39 @@ Theorem C14_nondominated_spec : forall strict objs rows i,
 Proof. exact nondominated_spec. Qed.
 Print Assumptions C14_nondominated_spec.
 
+(* what each comparison operator means (so that > cannot silently be >=, nor "in" be "not in") *)
+Theorem C14_operator_meaning : forall c x,
+  sat c x = true <->
+  match c with
+  | CGt v => (v < x)%Q | CGe v => (v <= x)%Q | CLt v => (x < v)%Q | CLe v => (x <= v)%Q
+  | CEq v => (x == v)%Q | CNe v => ~ (x == v)%Q
+  | CIn s => exists y, In y s /\ (x == y)%Q
+  | CNotIn s => forall y, In y s -> ~ (x == y)%Q
+  | CFn k => palette k x = true
+  end.
+Proof. exact sat_meaning. Qed.
+Print Assumptions C14_operator_meaning.
+
+Theorem C14_operators_come_in_complementary_pairs : forall x,
+  (forall s, sat (CNotIn s) x = negb (sat (CIn s) x)) /\
+  (forall v, sat (CNe v) x = negb (sat (CEq v) x)) /\
+  (forall v, sat (CLe v) x = negb (sat (CGt v) x)) /\
+  (forall v, sat (CLt v) x = negb (sat (CGe v) x)).
+Proof. exact sat_complements. Qed.
+Print Assumptions C14_operators_come_in_complementary_pairs.
+
+Theorem C14_single_valued_sets : forall v x,
+  sat (CIn [v]) x = sat (CEq v) x /\ sat (CNotIn [v]) x = sat (CNe v) x.
+Proof. exact single_valued_sets. Qed.
+Print Assumptions C14_single_valued_sets.
+
+(* two filters in a row keep what one filter with both lists of conditions keeps *)
+Theorem C14_conditions_conjoin : forall crits c1 c2 r,
+  survives crits (c1 ++ c2) r = survives crits c1 r && survives crits c2 r.
+Proof. exact survives_app. Qed.
+Print Assumptions C14_conditions_conjoin.
+
+
 Example C14_example :
   filter_impl [1; 2; 3]%Z [(3%Z, CGt 27); (1%Z, CGt 1)] false [[7; 5; 35]; [5; 4; 26]; [1; 7; 30]]
     = Ok [true; false; false] /\
